@@ -268,10 +268,12 @@ fn enc_step<const P: usize, const K: usize, const L: usize, const MODE: u32>() {
             assert!(expect.out == Out::Chunk, "C01: a chunk was yielded where the reference expects none");
             assert!(chunk.len() > 0, "C01: empty chunk");
             assert!(chunk.len() == expect.chunk.n, "C01/C06: chunk length differs from the reference framing");
+            // compare through one plain slice (a Bytes index per byte costs a window computation each time)
+            let got: &[u8] = chunk.as_ref();
             let mut j = 0;
-            while j < ACC && MODE & 32 == 0 {
-                if j < chunk.len() {
-                    assert!(chunk[j] == expect.chunk.b[j], "C01/C03: chunk bytes differ from the reference framing");
+            while j < P + K * (5 + L) {
+                if j < got.len() {
+                    assert!(got[j] == expect.chunk.b[j], "C01/C03: chunk bytes differ from the reference framing");
                 }
                 j += 1;
             }
